@@ -69,6 +69,7 @@ type GuardSpec struct {
 	Args       map[string]lat // parameter name -> abstract value
 	Success    *successSpec
 	NoInline   []string
+	Through    ssa.Instruction // only exits reachable from this instruction of the function count
 	// AllowNoSuccessBaseline: do not require that the function can succeed without assumptions
 	Depth int
 }
@@ -86,7 +87,7 @@ func (c *Ctx) guard(p *Program, rule, what string, f *ssa.Function, g GuardSpec)
 		succ = *g.Success
 	}
 	mk := func(withAssumes bool) *GuardQuery {
-		q := &GuardQuery{P: p, Root: f, MaxDepth: g.Depth, NoInline: map[string]bool{}}
+		q := &GuardQuery{P: p, Root: f, MaxDepth: g.Depth, NoInline: map[string]bool{}, ThroughSite: g.Through}
 		for _, n := range g.NoInline {
 			q.NoInline[n] = true
 		}
@@ -362,4 +363,24 @@ func (c *Ctx) depRule(p *Program, rule, what string, f *ssa.Function, sink depSi
 	}
 	c.ok(rule, construct, fmt.Sprintf("%s (%d site(s)) depends on %s", sink.desc, n, strings.Join(sources, ", ")), p.fnPos(f))
 	return true
+}
+
+// guardEachSite: for every call site in f of one of the named callees, assuming that
+// site (alone) yields failVal, no accepting exit is reachable from the site.
+func (c *Ctx) guardEachSite(p *Program, rule, what string, f *ssa.Function, resultIdx int, failVal lat, callees ...string) {
+	if f == nil {
+		c.undecided(rule, what, "anchor function does not resolve in the loaded program", "")
+		return
+	}
+	sites := p.callSites(f, callees...)
+	if len(sites) == 0 {
+		c.bad(rule, fname(f)+": "+what, "no call to "+strings.Join(callees, "|")+" in the function", p.fnPos(f))
+		return
+	}
+	for i, s := range sites {
+		site := s
+		a := Assume{Name: fmt.Sprintf("%s#%d", strings.Join(callees, "|"), i), Result: resultIdx, Val: failVal,
+			Match: func(x ssa.CallInstruction, _ string, _ *ssa.Function) bool { return x == site }}
+		c.guard(p, rule, fmt.Sprintf("%s [site %d of %s]", what, i+1, strings.Join(callees, "|")), f, GuardSpec{Assumes: []Assume{a}, Through: site})
+	}
 }
